@@ -224,7 +224,7 @@ func (self *CallStm) format(printer *printer, prefix string) {
 		self.Modifiers.Local || self.Modifiers.Preflight || self.Modifiers.Volatile) {
 		if self.Modifiers.Bindings == nil {
 			self.Modifiers.Bindings = &BindStms{
-				Node: self.Node,
+				Node: NewAstNode(self.Node.Loc),
 			}
 		}
 		printer.mustWriteString(") using (\n")
@@ -298,6 +298,7 @@ func (self *PipelineRetains) format(printer *printer) {
 	printer.mustWriteString(INDENT)
 	printer.mustWriteString("retain (\n")
 	for _, ref := range self.Refs {
+		printer.printComments(&ref.Node, INDENT+INDENT)
 		printer.mustWriteString(INDENT)
 		printer.mustWriteString(INDENT)
 		ref.format(printer, INDENT+INDENT)
